@@ -714,6 +714,93 @@ def insertion_unit(res):
     return res
 
 
+def dump_unit(res):
+    """Pb: MachineModel.dump (real code; the YAML writer, ruamel's styled containers and class_to_dict abstract): for a model whose
+    entry list holds an entry loaded from the file (a dict) and an imported one (an InstructionForm object), in any of the two
+    orders, the writer receives - last, under the key 'instruction_forms' - exactly one record per entry; an imported entry's
+    record carries its latency, throughput and port pressure unchanged (None stays None: nothing is invented) and one converted operand
+    per operand, in order; the header, load and store tables are written before it, each exactly once."""
+    files = ["osaca/parser/operand.py", "osaca/parser/instruction_form.py", "osaca/semantics/hw_model.py"]
+    ex = Engine([REPO + "/" + f for f in files])
+    ex.no_init |= {"MachineModel"}
+    lt, tp = z3.Real("imported_latency"), z3.Real("imported_throughput")
+    for order in ("file-first", "imported-first"):
+        for have in ((True, True), (False, True), (True, False), (False, False)):
+            def run(order=order, have=have):
+                ops = [SObj("RegisterOperand", tag="o1"), SObj("MemoryOperand", tag="o2")]
+                imp = ex.instantiate("InstructionForm", kw=dict(mnemonic="vfoo", operands=ops, latency=SNum(lt, False) if have[0] else None,
+                                                                throughput=SNum(tp, False) if have[1] else None, port_pressure=None))
+                fop = SObj("RegisterOperand", tag="f1")
+                fil = {"name": "ADD", "operands": [fop], "latency": 1, "throughput": 0.5, "port_pressure": [[1, "01"]]}
+                forms = [fil, imp] if order == "file-first" else [imp, fil]
+                data = {"isa": "x86", "ports": ["0", "1"], "instruction_forms": forms, "instruction_forms_dict": {"x": []}, "load_throughput": [], "store_throughput": [], "internal_version": 3}
+                log = []
+
+                class Styled:
+                    def __init__(self, v):
+                        self.v, self.fa = v, self
+
+                    def sym_getattr(self, ex_, attr):
+                        if attr == "fa":
+                            return self
+                        return PyMethod(self, attr)
+
+                    def sym_method(self, ex_, name, a, kw):
+                        if name == "set_flow_style":
+                            return None
+                        raise Unsupported("styled container." + name)
+
+                class Yaml:
+                    def sym_method(self, ex_, name, a, kw):
+                        if name == "dump":
+                            log.append(a[0])
+                            return None
+                        raise Unsupported("yaml." + name)
+
+                ex.abstract["ruamel.yaml.comments.CommentedSeq"] = lambda ex_, so, a, kw: Styled(a[0])
+                ex.abstract["ruamel.yaml.comments.CommentedMap"] = lambda ex_, so, a, kw: Styled(a[0])
+                ex.abstract["_create_yaml_object"] = lambda ex_, so, a, kw: Yaml()
+                ex.abstract["class_to_dict"] = lambda ex_, so, a, kw: ("as-dict", a[0])
+                ex.names["StringIO"] = ClassRef("StringIO")  # the stream given here is not one (nothing is returned as text)
+                ex.extra.update(log=log, ops=ops, fop=fop, imp=imp, fil=fil)
+                return ex.call_method("MachineModel", "dump", SObj("MachineModel", _data=data), [], kw=dict(stream=SObj("Stream")))
+
+            paths = ex.explore(run, [])
+
+            def post(v, p, order=order, have=have):
+                log = p.extra["log"]
+                if len(log) != 4 or not all(isinstance(x, dict) for x in log):
+                    return False
+                if list(log[1]) != ["load_throughput"] or list(log[2]) != ["store_throughput"] or list(log[3]) != ["instruction_forms"] or "instruction_forms" in log[0] or "ports" not in log[0]:
+                    return False
+                recs = log[3]["instruction_forms"]
+                if not (isinstance(recs, list) and len(recs) == 2 and all(isinstance(r, dict) for r in recs)):
+                    return False
+                # (the order of the records is not part of the statement: they are identified by their names)
+                nm = lambda r: r.get("mnemonic") if r.get("mnemonic") is not None else r.get("name")
+                ri, rf = [r for r in recs if nm(r) == "vfoo"], [r for r in recs if nm(r) == "ADD"]
+                if len(ri) != 1 or len(rf) != 1:
+                    return False
+                ri, rf = ri[0], rf[0]
+                ops = p.extra["ops"]
+                ok = (ri.get("operands") == [("as-dict", ops[0]), ("as-dict", ops[1])] and ri["operands"][0][1] is ops[0] and ri["operands"][1][1] is ops[1]
+                      and (ri.get("mnemonic") == "vfoo" or ri.get("name") == "vfoo") and ri.get("port_pressure") is None
+                      and rf.get("name") == "ADD" and rf.get("operands") == [("as-dict", p.extra["fop"])] and rf.get("latency") == 1 and rf.get("throughput") == 0.5)
+                g = [z3.BoolVal(bool(ok))]
+                # a value that was not measured is missing in the record (absent or null), never a number
+                g.append(real_term(ri["latency"]) == lt if (have[0] and ri.get("latency") is not None) else z3.BoolVal(not have[0] and ri.get("latency") is None))
+                g.append(real_term(ri["throughput"]) == tp if (have[1] and ri.get("throughput") is not None) else z3.BoolVal(not have[1] and ri.get("throughput") is None))
+                return z3.And(g)
+
+            res.add_paths(paths, post, kind=f"dump/{order}/lt={int(have[0])}/tp={int(have[1])}", label="Pb")
+    return res
+
+
+def _run_dispatch():
+    from .c13 import run_dispatch_unit
+    return run_dispatch_unit
+
+
 def units(tier):
     us = [
         Unit("C20/_validate_measurement", validate_unit, "P", [(DBI, "_validate_measurement")]),
@@ -726,6 +813,8 @@ def units(tier):
         Unit("C20/_is_asmbench_measurement", measurement_line_unit, "P", [(DBI, "_is_asmbench_measurement")]),
         Unit("C20/insertion(set_instruction_entry, set_instruction, import loop)", insertion_unit, "P", [("osaca/semantics/hw_model.py", "MachineModel.set_instruction_entry"),
              ("osaca/semantics/hw_model.py", "MachineModel.set_instruction"), (DBI, "import_benchmark_output")]),
+        Unit("C20/run+import_data(dispatch to the reader of the benchmark kind)", _run_dispatch(), "P", [("osaca/osaca.py", "run"), ("osaca/osaca.py", "import_data")], decisive=False),
+        Unit("C20/MachineModel.dump(records handed to the YAML writer)", dump_unit, "Pb", [("osaca/semantics/hw_model.py", "MachineModel.dump")]),
         bounded_unit("C20/import-end-to-end", "c20_import", [(DBI, "_get_ibench_output"), (DBI, "_get_asmbench_output"),
                      (DBI, "import_benchmark_output"), ("osaca/semantics/hw_model.py", "MachineModel.set_instruction_entry"),
                      ("osaca/semantics/hw_model.py", "MachineModel.dump")], timeout=1200),
